@@ -1,9 +1,113 @@
 import AioModel.Wire
-/-! Driver commands of property C05 (stub until the model exists). -/
+import AioModel.C05
+/-!
+Driver commands of property C05.
+
+`run <keepaliveMs>,<lingerMs> <progs> <oracle> <event>…` → observations after every event,
+joined by ` | `.
+* progs: `;`-separated handler programs (`-` = none), ops separated by `.`:
+  `S<ms>` `R` `P` `W` and a final `ok|fc|E403|Ex|Et|Ec|none`
+* oracle: `;`-separated parser calls (`-` = none), tokens separated by `,`:
+  `p<idx>.<chunks>.<eof><exc>`, `m<has><close><v11><vge11><nostream><expect><eof><exc><badurl>.<chunks>`,
+  `u<0|1>`, `t<tailLen>`, `!<lost>` (raised), `_` (call without any token)
+* events: `d<n>` data_received(n bytes), `x` peer disconnect, `k` one callback, `s` settle,
+  `t<ms>` let `ms` of virtual time pass
+-/
 namespace Aio.Driver.C05
-open Aio Aio.Wire
+open Aio Aio.Wire Aio.C05
+
+def bit (c : Char) : Option Bool := if c == '1' then some true else if c == '0' then some false else none
+
+def parseOp (t : String) : Option HOp :=
+  match t with
+  | "R" => some .read
+  | "P" => some .prepare
+  | "W" => some .write
+  | "ok" => some (.fin .ok)
+  | "fc" => some (.fin .fc)
+  | "E403" => some (.fin .e403)
+  | "Ex" => some (.fin .ex)
+  | "Et" => some (.fin .et)
+  | "Ec" => some (.fin .ec)
+  | "none" => some (.fin .none)
+  | _ => if t.startsWith "S" then (t.drop 1).toNat?.map .sleep else none
+
+def parseProgs (s : String) : Option (List Prog) :=
+  if s == "-" then some [] else
+  (s.splitOn ";").mapM (fun p => (p.splitOn ".").mapM parseOp)
+
+def parseTok (o : POut) (t : String) : Option POut :=
+  match t.toList with
+  | 'p' :: rest =>
+    match (String.ofList rest).splitOn "." with
+    | [i, c, fl] =>
+      match fl.toList with
+      | [e, x] => do
+        let i ← i.toNat?; let c ← c.toNat?; let e ← bit e; let x ← bit x
+        pure { o with olds := o.olds ++ [{ idx := i, chunks := c, eof := e, exc := x }] }
+      | _ => none
+    | _ => none
+  | 'm' :: rest =>
+    match (String.ofList rest).splitOn "." with
+    | [fl, c] =>
+      match fl.toList with
+      | [a, b, v, w, n, ex, e, x, bu] => do
+        let a ← bit a; let b ← bit b; let v ← bit v; let w ← bit w; let n ← bit n
+        let ex ← (String.ofList [ex]).toNat?; let e ← bit e; let x ← bit x; let bu ← bit bu; let c ← c.toNat?
+        pure { o with msgs := o.msgs ++ [{ hasPayload := a, shouldClose := b, v11 := v, vge11 := w, noStream := n,
+                                             expect := ex, chunks := c, eof := e, exc := x, badUrl := bu }] }
+      | _ => none
+    | _ => none
+  | ['u', b] => (bit b).map (fun b => { o with upgraded := b })
+  | 't' :: rest => (String.ofList rest).toNat?.map (fun n => { o with tailLen := n })
+  | '!' :: rest => (String.ofList rest).toNat?.map (fun n => { o with raised := true, lost := n })
+  | ['_'] => some o
+  | _ => none
+
+def parseOracle (s : String) : Option (List POut) :=
+  if s == "-" then some [] else
+  (s.splitOn ";").mapM (fun c => (c.splitOn ",").foldlM parseTok {})
+
+def settle : Nat → St → St
+  | 0, s => s
+  | fuel + 1, s => if s.ready.isEmpty then s else settle fuel (step s .tick)
+
+def advance : Nat → St → Nat → St
+  | 0, s, _ => s
+  | fuel + 1, s, target =>
+    let s := settle 100000 s
+    match earliest s with
+    | some w => if w ≤ target then advance fuel (step s (.fire target)) target
+                else settle 100000 (step s (.fire target))
+    | none => settle 100000 (step s (.fire target))
+
+def runEvents : St → List String → List String → Option (List String)
+  | _, [], acc => some acc.reverse
+  | s, e :: es, acc =>
+    let s' : Option St :=
+      match e.toList with
+      | ['x'] => some (step s .lost)
+      | ['k'] => some (step s .tick)
+      | ['s'] => some (settle 100000 s)
+      | 'd' :: n => (String.ofList n).toNat?.map (fun n => step s (.data n))
+      | 't' :: n => (String.ofList n).toNat?.map (fun n => advance 100000 s (s.now + n))
+      | _ => none
+    match s' with
+    | none => none
+    | some s' => runEvents s' es (obs s' :: acc)
 
 def handle : List String → String
+  | "run" :: cfg :: progs :: oracle :: events =>
+    match cfg.splitOn ",", parseProgs progs, parseOracle oracle with
+    | [ka, li], some progs, some oracle =>
+      match ka.toNat?, li.toNat? with
+      | some ka, some li =>
+        let s := init { keepaliveMs := ka, lingerMs := li } progs oracle
+        match runEvents s events [] with
+        | some outs => " | ".intercalate outs
+        | none => "bad-op"
+      | _, _ => "bad-op"
+    | _, _, _ => "bad-op"
   | _ => "bad-op"
 
 end Aio.Driver.C05
